@@ -1,6 +1,8 @@
 import MobiusModel.Session
 import MobiusModel.Generated.Consts
 import MobiusModel.Generated.Concurrency
+import MobiusModel.Generated.Kick
+import MobiusModel.KickTimer
 /-!
   C17 — Disconnects and bans are enforced at the door.
 
@@ -146,7 +148,7 @@ theorem not_refused_unaffected {W O : Type} (env : Env W O) (w : W) (chunks : Li
 /-- (12) When a user is disconnected every other registered client is told that this user ID left,
     and the user is gone from the registry — also when the user never sent a name or has not agreed
     yet (`c.name = []`, `c.agreed = false`): it is listed, so it must be de-listed for the others. -/
-theorem others_are_told_user_left (live : List Client) (c o : Client) (ho : o ∈ live) (hne : o.id ≠ c.id) :
+theorem others_are_told_user_left (live : List BanGate.Client) (c o : BanGate.Client) (ho : o ∈ live) (hne : o.id ≠ c.id) :
     (o.id, c.id) ∈ (disconnect live c).2 ∧ ∀ x ∈ (disconnect live c).1, x.id ≠ c.id :=
   ⟨disconnect_tells_all_others live c o ho hne, disconnect_removes live c⟩
 
@@ -164,6 +166,46 @@ theorem generated_banDuration : Generated.miscConsts.lookup "BanDurationMinutes"
 theorem generated_banfile_add_atomic :
     ("mobius.BanFile.Add", "bf.Lock()", true, false) ∈ Generated.lockSites ∧
     ∀ s ∈ Generated.lockSites, s.1 = "mobius.BanFile.Add" → s.2.2.1 = true := by decide
+
+/-! "Every other address is unaffected" by the disconnect itself: the delayed second `Disconnect`. -/
+
+/-- (13) For EVERY history of logins, own disconnects and delayed disconnects (`timerFires`) from the empty server —
+    also when the kicked user hung up first and newcomers logged in meanwhile, also across the wrap of the 16-bit id
+    counter — a disconnect removes exactly the connection it is aimed at (or nobody, the second time), everybody else
+    stays in the table, and no "user left" notice names the id of a user who is still listed. -/
+theorem disconnect_affects_only_its_target (es : List Kick.Ev) (conn : Nat) (e : Kick.Ev)
+    (he : e = .leave conn ∨ e = .timerFires conn) :
+    (∀ d, (Kick.step (Kick.run Kick.St.init es) e).2.removed = some d → d.conn = conn) ∧
+    (∀ d ∈ (Kick.run Kick.St.init es).reg.clients, d.conn ≠ conn → d ∈ (Kick.step (Kick.run Kick.St.init es) e).1.reg.clients) ∧
+    (∀ n ∈ (Kick.step (Kick.run Kick.St.init es) e).2.notices, ∀ d ∈ (Kick.step (Kick.run Kick.St.init es) e).1.reg.clients, n.2 ≠ d.id) :=
+  ⟨((Kick.step_spec (Kick.Good.init.run es) e).2 conn he).1, ((Kick.step_spec (Kick.Good.init.run es) e).2 conn he).2,
+   Kick.step_notices_name_nobody_listed _ e⟩
+
+/-- (13') The second `Disconnect` of a connection object does nothing: table unchanged, nobody told anything. -/
+theorem second_disconnect_is_a_no_op (s : Kick.St) (conn : Nat) (h : conn ∈ s.gone) :
+    Kick.step s (.timerFires conn) = (s, {}) ∧ Kick.step s (.leave conn) = (s, {}) := by
+  simp [Kick.step, h]
+
+/-- (13'') The negative witness (before fix d658b12 every `Disconnect` deleted by id): after the id counter has gone
+    round, the stale delayed `Disconnect` of a kicked user removes a newcomer — another connection object, from
+    whatever address — and announces that it left. -/
+theorem stale_disconnect_before_fix_hits_a_bystander :
+    ∃ (r : Registry) (u n : Client),
+      Registry.init.add Kick.blank = some (r, u) ∧ u.id = 1 ∧
+      (Kick.spinN 65534 r).delete u.id = ⟨65535, 65535, []⟩ ∧
+      Registry.add ⟨65535, 65535, []⟩ Kick.blank = some (⟨65537, 65536, [n]⟩, n) ∧
+      n.id = u.id ∧ n.conn ≠ u.conn ∧
+      (Kick.discById ⟨65537, 65536, [n]⟩ u.id).2.removed = some n ∧
+      (Kick.discById ⟨65537, 65536, [n]⟩ u.id).1.clients = [] :=
+  Kick.stale_timer_removes_newcomer_after_wrap
+
+/-- `ClientConn.Disconnect` has the once-guarded shape the model assumes (regenerated from source on every run). -/
+theorem generated_disconnect_once : Generated.disconnectShape = "once-guarded" := by decide
+
+-- a kicked user (connection 1) hangs up, a newcomer logs in, the timer fires: newcomer and bystander stay, nobody is told anything
+example : (Kick.step (Kick.run Kick.St.init [.login Kick.blank, .login Kick.blank, .leave 1, .login Kick.blank]) (.timerFires 1)).2 = {} := by decide
+example : ((Kick.step (Kick.run Kick.St.init [.login Kick.blank, .login Kick.blank, .leave 1, .login Kick.blank]) (.timerFires 1)).1.reg.clients.map (·.conn)) = [0, 2] := by decide
+example : (Kick.step (Kick.run Kick.St.init [.login Kick.blank, .login Kick.blank]) (.timerFires 1)).2.notices = [(1, 2)] := by decide
 
 -- non-vacuity: concrete instances
 example : (disconnect [⟨1, [97], true⟩, ⟨2, [], false⟩, ⟨3, [98], true⟩] ⟨2, [], false⟩).2 = [(1, 2), (3, 2)] := by decide
